@@ -53,4 +53,11 @@ func init() {
 		Real:        realAll,
 		Stub:        stubAll,
 	}
+	engineTable["C27"] = engineInfo{
+		Engine:      "C27",
+		Rule:        "case = REPL session of 4-13 inputs fed to the real repl evaluator (definitions and redefinitions of methods, classes, reopened classes, constants, top-level locals and their updates, uses printing tokens, runtime errors, and six kinds of inputs that the checker rejects after partial work: unknown superclass, type error in the second of two bodies, bad signature, bad constant after a valid class, error after new locals, bad redefinition; plus uses of names only rejected inputs tried to define) x optional failpoint that injects a checker failure at the k-th phase boundary of Checker.CheckProgram for one input x one schedule of the parallel method checks. Oracles: (1) the same session with the observed-rejected inputs removed produces identical output, echo and diagnostics for every other input; (2) for up to two accepted inputs, the tokens printed equal the tail of a batch compile-and-run of the accepted inputs before it plus itself; no Go panic. Non-trivial: at least one rejected and one accepted input; distinct: hash of (inputs, failpoint, schedule trace)",
+		Assumptions: append([]string{"batch comparisons are skipped (counted) when the batch program is itself rejected, e.g. a top-level local declared twice"}, commonAssumptions...),
+		Real:        append([]string{"repl.evaluator.evaluate (through a generated export file in the scratch copy)", "incremental Checker.CheckSource with snapshot/restore", "vm.InterpretREPL on a persistent stack"}, realAll...),
+		Stub:        append([]string{"terminal input (go-prompt) and SIGINT", "os.Stdout / os.Stderr (redirected to a scratch file for the session)"}, stubAll...),
+	}
 }
